@@ -44,7 +44,7 @@ def run_tests(pid, files=None):
     """the repository's own tests on the patched worktree: only the network-dependent ones may fail"""
     which = TESTS["env"] if pid in ("C01", "C02", "C03", "C04", "C05", "C06", "C07", "C08", "C18") else TESTS["other"]
     which = " ".join(f for f in which.split() if os.path.exists(os.path.join(WT, f)))
-    r = sh("cd %s && timeout 3000 /venv/bin/python -m pytest -q -p no:cacheprovider --timeout=900 %s 2>&1 | tail -40" % (WT, which))
+    r = sh("cd %s && OMP_NUM_THREADS=1 timeout 3000 /venv/bin/python -m pytest -q -p no:cacheprovider --timeout=900 %s 2>&1 | tail -40" % (WT, which))
     failed = [l for l in r.stdout.splitlines() if l.startswith("FAILED ") or l.startswith("ERROR tests")]
     new_fail = [l for l in failed if not any(b in l for b in BASELINE_FAIL)]
     return new_fail, r.stdout.splitlines()[-1:] 
